@@ -53,4 +53,9 @@ CLAIMED['C06'] = {
     'text': 'For all seven variants and both lower stages, every call of the next stage is proved to receive the caller\'s imf / envelope / extrema options (and the scalar options that apply) - none dropped, none replaced by a default, positional binding included. The config-object and partial routes are covered by C18 and by the bounded trace.',
     'note': 'Assumes Pool.starmap(f, args) == [f(*a) for a in args] and the numpy shim contracts between stages; stage callees are arbitrary functions of their arguments (modular). The pyvc engine and SMT solvers are trusted.',
 }
+CLAIMED['C18'] = {
+    'technique': 'deductive (case analysis + modular stubs): SiftConfig key-path methods by nesting depth with opaque names/values; _array_or_tuple_to_list with its recursive call replaced by its contract; YAML round trips under an assumed PyYAML dump/load contract; get_func; get_config checked against the live signature defaults and, through the recording stubs of C06, for equal effective stage arguments; bounded stand-in: edit sequences x variants x both YAML routes x behavioural comparison',
+    'text': 'Key paths are proved to address exactly the nested entry (frame included) and to reject a fourth level; the YAML file and text routes are proved to preserve sift type and options for any plain-data store under the assumed PyYAML contract; the default configuration is proved to carry the live signature defaults and to reach the extraction stage with the same effective arguments as a call without options. Output equality of callables is bounded.',
+    'note': 'Assumes str.split, dict semantics of CPython, the PyYAML round-trip contract for plain data and (via C06) Pool.starmap; the pyvc engine and SMT solvers are trusted.',
+}
 PENDING_REASON = {}
